@@ -8,9 +8,23 @@ Open Scope Z_scope.
 (* ob_sizes     the sixteen table sizes of SrvRes.sizes, read through the //go:build verif accessors
    ob_tcp/udp   used ports of the two managers (sorted)
    ob_names     the global name table (sorted)
-   ob_tbusy/ubusy  ports of the allowed range that cannot be bound right now (OS probe by the harness) *)
+   ob_tbusy/ubusy  ports of the allowed range that cannot be bound right now (OS probe by the harness)
+   ob_keys      the CONTENT of the keyed tables: every route of the three route tables ("H|domain|location|user",
+                "S|..." https, "M|..." tcpmux), every visitor listener ("V|name") and NAT-hole client ("N|name") *)
 Record obs := { ob_sizes : list Z; ob_tcp : list Z; ob_udp : list Z; ob_names : list string;
-                ob_tbusy : list Z; ob_ubusy : list Z }.
+                ob_tbusy : list Z; ob_ubusy : list Z; ob_keys : list string }.
+
+Definition bar (a b : string) : string := String.append a (String.append "|" b).
+Definition slot_str (k : slot) : list string :=
+  match k with
+  | SRoute RHttp (d, l, u) => [bar "H" (bar d (bar l u))]
+  | SRoute RHttps (d, l, u) => [bar "S" (bar d (bar l u))]
+  | SRoute RMux (d, l, u) => [bar "M" (bar d (bar l u))]
+  | SVis n => [bar "V" n]
+  | SNat n => [bar "N" n]
+  | SSock _ _ => []
+  end.
+Definition model_keys (s : sr) : list string := flat_map (fun e => slot_str (fst e)) (sr_res s).
 
 Fixpoint zlist_eqb (a b : list Z) : bool :=
   match a, b with
@@ -33,7 +47,8 @@ Definition sset_eq (a b : list string) : bool :=
 
 Definition obs_eqb (a b : obs) : bool :=
   zlist_eqb (ob_sizes a) (ob_sizes b) && zlist_eqb (ob_tcp a) (ob_tcp b) && zlist_eqb (ob_udp a) (ob_udp b)
-  && slist_eqb (ob_names a) (ob_names b) && zlist_eqb (ob_tbusy a) (ob_tbusy b) && zlist_eqb (ob_ubusy a) (ob_ubusy b).
+  && slist_eqb (ob_names a) (ob_names b) && zlist_eqb (ob_tbusy a) (ob_tbusy b) && zlist_eqb (ob_ubusy a) (ob_ubusy b)
+  && slist_eqb (ob_keys a) (ob_keys b).
 
 (* what the model says the harness must have seen *)
 (* an observation with an empty size list = "this step could not be observed" (the step of a gated
@@ -46,6 +61,7 @@ Definition obs_code (o : obs) (s : sr) : Z :=
   else if negb (sset_eq (ob_names o) (map fst (sr_names s))) then 6
   else if negb (zset_eq (ob_tbusy o) (sock_ports 0 (sr_res s) ++ squat_ports 0 (sr_squat s))) then 7
   else if negb (zset_eq (ob_ubusy o) (sock_ports 1 (sr_res s) ++ squat_ports 1 (sr_squat s))) then 8
+  else if negb (sset_eq (ob_keys o) (model_keys s)) then 9
   else 0 end.
 
 (* result codes as the harness prints them *)
@@ -98,7 +114,8 @@ Definition C10_holds (c : case) : bool :=
 
 (* 0 = model and implementation agree and the observed trace passes the monitor;
    1 an oracle value is illegal in the model, 2 result differs, 3 table sizes, 4/5 tcp/udp used ports,
-   6 name table, 7/8 OS-level busy tcp/udp ports, 20 the observed trace violates the monitor *)
+   6 name table, 7/8 OS-level busy tcp/udp ports, 9 content of the keyed tables (routes, visitor listeners,
+   NAT-hole clients), 20 the observed trace violates the monitor *)
 Definition check_case (c : case) : Z :=
   let r := run_steps (cs_maxp c) (cs_maxpool c) (sr_new (cs_ranges c)) (cs_steps c) in
   if negb (r =? 0) then r
